@@ -91,6 +91,17 @@ func isInty(t types.Type) bool {
 	b, ok := t.Underlying().(*types.Basic)
 	return ok && (b.Kind() == types.Int || b.Kind() == types.UntypedInt)
 }
+func hasFmtMethod(t types.Type) bool {
+	for _, tt := range []types.Type{t, types.NewPointer(t)} {
+		ms := types.NewMethodSet(tt)
+		for _, n := range []string{"String", "Error", "Format", "GoString"} {
+			if ms.Lookup(nil, n) != nil {
+				return true
+			}
+		}
+	}
+	return false
+}
 func isBuilder(t types.Type) bool {
 	if p, ok := t.(*types.Pointer); ok {
 		t = p.Elem()
@@ -703,6 +714,22 @@ func (x *xl) sprintf(c *ast.CallExpr) ([]string, string, error) {
 				return nil, "", x.errf(c, "format verb %%%c applied to %s", rs[i], t)
 			}
 			ai++
+		case 'v': // %v of a plain string / int (a type with a String, Error or Format method prints differently: rejected)
+			if ai >= len(args) {
+				return nil, "", x.errf(c, "format %q: missing argument", format)
+			}
+			t := x.typeOf(c.Args[1+ai])
+			flush()
+			if hasFmtMethod(t) {
+				return nil, "", x.errf(c, "format verb %%v applied to %s, which has a String / Error / Format method", t)
+			} else if isStringy(t) {
+				parts = append(parts, "Go.fmtS "+args[ai])
+			} else if isInty(t) {
+				parts = append(parts, "Go.fmtD "+args[ai])
+			} else {
+				return nil, "", x.errf(c, "format verb %%v applied to %s", t)
+			}
+			ai++
 		default:
 			return nil, "", x.errf(c, "format verb %%%c", rs[i])
 		}
@@ -909,6 +936,8 @@ func (x *xl) call(c *ast.CallExpr) ([]string, string, error) {
 			"slices.Index":      {"Go.slicesIndex", 2},
 			"slices.Contains":   {"Go.slicesContains", 2},
 			"strconv.Atoi":      {"Go.atoi", 1},
+			"strings.Join":      {"Go.stringsJoin", 2},
+			"strings.TrimSpace": {"Go.trimSpace", 1},
 		}
 		if x.w.dom {
 			prims["github.com/google/go-cmp/cmp.Equal"] = struct {
